@@ -1123,21 +1123,21 @@ def oracle_invariance(case):
 
 
 CLAUSES = [
-    Clause('displacement', oracle_displacement, G17.displacement_cases, quick=800, thorough=12000,
+    Clause('displacement', oracle_displacement, G17.displacement_cases, quick=1200, thorough=20000,
            min_share={'nt': 0.3, 'rewrapped': 0.4, 'direct': 0.25, 'box_differs': 0.08, 'searched': 0.05},
            desc='displacement() = imposed displacement through the periodic boundaries (homogeneous F with deformed cell, rigid slip, '
                 'random per-atom vectors up to 0.45 cell widths, translations by several cells), every box_reference setting'),
-    Clause('strain', oracle_strain, G17.strain_cases, quick=720, thorough=9000,
+    Clause('strain', oracle_strain, G17.strain_cases, quick=1000, thorough=14000,
            min_share={'nt': 0.15, 'F_both': 0.2, 'subset_dup': 0.06, 'wrapper': 0.1, 'surface': 0.15, 'axes_given': 0.08,
                       'nbr_neighbors': 0.1, 'twotype': 0.15, 'theta_given': 0.15},
            desc='homogeneous F: Strain.G = F^-T at every atom with a 3-D neighbour set, strain/rotation/invariants/angular velocity, '
                 'zero Nye tensor, asdict, nye_tensor() function, (F-I).d0 differential displacements'),
-    Clause('slip', oracle_slip, G17.slip_cases, quick=720, thorough=9000,
+    Clause('slip', oracle_slip, G17.slip_cases, quick=1000, thorough=14000,
            min_share={'nt': 0.15, 'slip_generic': 0.2, 'nye_class_vs_function': 0.12, 'nye_nonuniform': 0.12, 'cut_periodic': 0.1,
                       'inplane_open': 0.1, 'ddref1': 0.15, 'both_halves_move': 0.2},
            desc='rigid slip: slip_vector = n_across x relative displacement of the own half, disregistry = slip at every coordinate, '
                 'ddvectors = u_j - u_i per listed pair (both references), Nye tensor of class / function / own curl agree'),
-    Clause('invariance', oracle_invariance, G17.invariance_cases, quick=400, thorough=5000,
+    Clause('invariance', oracle_invariance, G17.invariance_cases, quick=560, thorough=8000,
            min_share={'nt': 0.25, 'cfg_slip': 0.2, 'cfg_F': 0.2, 'nye_compared': 0.5, 'rewrapped': 0.2},
            desc='all results unchanged (per-atom arrays permuted, pair list mapped) under a common translation with or without '
                 're-wrapping and a consistent renumbering'),
